@@ -4,6 +4,7 @@ import (
 	"fmt"
 	"sort"
 	"strconv"
+	"strings"
 	"time"
 
 	"github.com/asaskevich/EventBus"
@@ -157,6 +158,11 @@ func (m *Member) ConsumeEvent(ctx *models.ListenerContext) {
 		m.setAckInConsume(vb, true)
 		m.ack(ev)
 		m.setAckInConsume(vb, false)
+	case "deferred-commit":
+		// a listener that flushes what it acknowledged earlier while the current event is still with a worker
+		w.jl(&journal.Ev{K: journal.KCall, M: m.id, Vb: -1, S: "CommitInside", ID: ev.id})
+		ctx.Commit()
+		w.jl(&journal.Ev{K: journal.KRet, M: m.id, Vb: -1, S: "CommitInside", ID: ev.id})
 	case "immediate-commit":
 		m.setAckInConsume(vb, true)
 		m.ack(ev)
@@ -480,7 +486,7 @@ func (m *Member) actions() []Action {
 		kind string
 	}
 	var cands []cand
-	if m.mode == "deferred" {
+	if strings.HasPrefix(m.mode, "deferred") {
 		for _, vb := range vbs {
 			l := m.unacked[vb]
 			if parked != nil && parked.vb == vb {
